@@ -451,16 +451,33 @@ func genVersions(repo, out string) {
 	if !ok {
 		fail("RoomVersionImpl is not a struct")
 	}
-	var fields []string
+	var fields, funcFields []string
+	isFunc := func(e ast.Expr) bool {
+		if _, ok := e.(*ast.FuncType); ok {
+			return true
+		}
+		if id, ok := e.(*ast.Ident); ok {
+			if ts := root.typeSpec(id.Name); ts != nil {
+				_, ok := ts.Type.(*ast.FuncType)
+				return ok
+			}
+		}
+		return false
+	}
 	for _, f := range st.Fields.List {
 		for _, n := range f.Names {
 			fields = append(fields, n.Name)
+			if isFunc(f.Type) {
+				funcFields = append(funcFields, n.Name)
+			}
 		}
 	}
 	var b strings.Builder
 	b.WriteString(header)
 	b.WriteString("(* every entry: version string, then (field name, value) pairs for the fields that are SET\n   in the composite literal; an unset field is absent (Go zero value: nil func / false / 0). *)\n")
 	fmt.Fprintf(&b, "Definition gen_version_fields : list (list N) :=\n     %s.\n\n", coqBytesList(fields))
+	b.WriteString("(* the fields of RoomVersionImpl whose type is a function type: a nil one is a crash when called *)\n")
+	fmt.Fprintf(&b, "Definition gen_version_func_fields : list (list N) :=\n     %s.\n\n", coqBytesList(funcFields))
 	type entry struct {
 		name string
 		kvs  [][2]string
